@@ -6,6 +6,8 @@ use crate::{action::UnitTrace, html};
 pub struct BodyPrepend {
     element_tree: Vec<String>,
     position: usize,
+    // Whether the last element of the tree (the target) is currently open
+    in_target: bool,
     css_selector: Option<String>,
     content: String,
     inner_content: String,
@@ -27,6 +29,7 @@ impl BodyPrepend {
             element_tree,
             css_selector,
             position: 0,
+            in_target: false,
             content,
             inner_content,
             is_buffering: false,
@@ -50,6 +53,8 @@ impl BodyPrepend {
         }
 
         if self.position + 1 >= self.element_tree.len() {
+            self.in_target = true;
+
             if self.css_selector.is_none() || self.css_selector.as_ref().unwrap().is_empty() {
                 new_data.push_str(self.content.as_str());
                 if let Some(trace) = unit_trace {
@@ -71,11 +76,17 @@ impl BodyPrepend {
     }
 
     pub fn leave(&mut self, data: String, unit_trace: Option<&mut UnitTrace>) -> Result<(Option<String>, Option<String>, String)> {
-        let next_enter = Some(self.element_tree[self.position].clone());
-        let next_leave = if self.position as i32 > 0 {
+        // When the target is left the position does not move: it was not advanced when the target was
+        // entered, and its next sibling occurrence has to be processed as well
+        if self.in_target {
+            self.in_target = false;
+        } else if self.position > 0 {
             self.position -= 1;
+        }
 
-            Some(self.element_tree[self.position].clone())
+        let next_enter = Some(self.element_tree[self.position].clone());
+        let next_leave = if self.position > 0 {
+            Some(self.element_tree[self.position - 1].clone())
         } else {
             None
         };
